@@ -1,6 +1,7 @@
 package main
 
 import (
+	"time"
 	"bytes"
 	"fmt"
 	"math/rand"
@@ -132,7 +133,16 @@ func runC15(idx int, rng *rand.Rand, tier string) []Case {
 			}
 		}(g)
 	}
-	wg.Wait()
+	// a targeter that never lets a caller return (a lock left held) must not hang the harness
+	stuck := false
+	waited := make(chan struct{})
+	go func() { wg.Wait(); close(waited) }()
+	select {
+	case <-waited:
+	case <-time.After(20 * time.Second):
+		stuck = true
+		calls = make([][]call, callers) // the blocked callers still own their slices
+	}
 	var c Case
 	w := &c.W
 	w.Z(1)
@@ -147,7 +157,7 @@ func runC15(idx int, rng *rand.Rand, tier string) []Case {
 			w.Z(x.s); w.Z(x.e); w.Z(x.out)
 		}
 	}
-	w.Bool(false)
+	w.Bool(stuck)
 	c.Tag = format + ";nt"
 	c.Dist = fmt.Sprintf("%s/callers%d/n%d", format, callers, sizeClass(n))
 	c.Sample = map[string]interface{}{"targeter": format, "callers": callers, "targets": n, "calls": total}
